@@ -1807,6 +1807,11 @@ class Engine:
         if mode == 0:
             if not test():
                 raise PathEnd('loop guard false on iteration path')
+            # guard against an ineffective havoc (e.g. a "fresh" constant that is not fresh): if the head state admits only
+            # k = 0 the contract verifies the first iteration only - reported, never silently accepted
+            if not getattr(spec, 'single_iteration', False) and self.path.check(I(kk) >= 1) == z3.unsat:
+                self.stale_notes.add('%s: the loop contract\'s head state admits only the first iteration (k = 0): havoc ineffective or '
+                                     'invariant too strong - later iterations are not covered' % tag)
             v0 = spec.variant(ctx) if spec.variant is not None else None
             pre_body()
             try:
